@@ -69,7 +69,7 @@ def build(vals, sym, src='bugfix/PROJ-1-x', dst='development/4.3'):
     writes = []
     comments = []
 
-    class Comment:
+    class Comment(common.HostNames):
         def __init__(self, author, text):
             self.author, self.text = author, text
 
@@ -87,9 +87,9 @@ def build(vals, sym, src='bugfix/PROJ-1-x', dst='development/4.3'):
         if d is not None:
             comments.append(Comment('contributor', SPELL[spd] % ('after_pull_request=%s' % d)))
 
-    class PRObj:
+    class PRObj(common.HostNames):
         id = 1
-        author = 'contributor'
+        _author = 'contributor'
         author_display_name = 'contributor'
         src_branch = src
         dst_branch = dst
